@@ -660,8 +660,15 @@ func (r *Runner) modeB(pkgRel string, filter string, native bool, bounds Bounds,
 // modeC: static fixture packages (harness/conc/<name>) using the concurrency helpers: copied into the scratch
 // repository, generated by the freshly built goderive, and executed with the schedule as solver variables.
 func (r *Runner) modeC(name string, filter string, bounds Bounds) {
-	src := filepath.Join(verifDir(), "harness", "conc", name)
-	rel := "vxfix/conc/" + name
+	r.modeStatic("conc", name, filter, bounds, true, nil)
+}
+
+// modeStatic: a hand-written fixture package (harness/<group>/<name>, sub-directories are sibling packages)
+// is copied into the scratch repository, generated by the freshly built goderive (gen may customise that
+// step) and its VX_ harnesses are executed.
+func (r *Runner) modeStatic(group, name string, filter string, bounds Bounds, conc bool, gen func(rel string, fp *FixPkg)) {
+	src := filepath.Join(verifDir(), "harness", group, name)
+	rel := "vxfix/" + group + "/" + name
 	dst := filepath.Join(r.S.Repo, rel)
 	os.MkdirAll(dst, 0o755)
 	ents, err := os.ReadDir(src)
@@ -671,9 +678,29 @@ func (r *Runner) modeC(name string, filter string, bounds Bounds) {
 	}
 	var names []string
 	fnRe := regexp.MustCompile(`(?m)^func (VX_[A-Za-z0-9_]+)\(\)`)
+	// sibling packages
+	filepath.Walk(src, func(p string, info os.FileInfo, err error) error {
+		if err != nil || info.IsDir() {
+			return nil
+		}
+		relp, _ := filepath.Rel(src, p)
+		if filepath.Dir(relp) == "." {
+			return nil
+		}
+		data, _ := os.ReadFile(p)
+		os.MkdirAll(filepath.Join(dst, filepath.Dir(relp)), 0o755)
+		os.WriteFile(filepath.Join(dst, relp), data, 0o644)
+		return nil
+	})
 	for _, e := range ents {
+		if e.IsDir() {
+			continue
+		}
 		data, _ := os.ReadFile(filepath.Join(src, e.Name()))
 		os.WriteFile(filepath.Join(dst, e.Name()), data, 0o644)
+		if strings.HasSuffix(e.Name(), "_test.go") {
+			continue
+		}
 		for _, m := range fnRe.FindAllStringSubmatch(string(data), -1) {
 			names = append(names, m[1])
 		}
@@ -687,7 +714,11 @@ func (r *Runner) modeC(name string, filter string, bounds Bounds) {
 	rt.WriteString("\t})\n}\n")
 	os.WriteFile(filepath.Join(dst, "zz_replay_test.go"), []byte(rt.String()), 0o644)
 	fp := &FixPkg{Rel: rel, Insts: []Inst{{ID: name, T: &Ty{K: "basic", Name: "fixture:" + name}}}}
-	r.S.runGoderive(fp)
+	if gen != nil {
+		gen(rel, fp)
+	} else {
+		r.S.runGoderive(fp)
+	}
 	if !fp.GenOK {
 		r.feFailure(fp, "goderive", fp.GenOut)
 		return
@@ -699,7 +730,7 @@ func (r *Runner) modeC(name string, filter string, bounds Bounds) {
 	if len(good) == 0 {
 		return
 	}
-	r.stage("concurrency fixture " + name + " generated")
+	r.stage("fixture " + group + "/" + name + " generated")
 	ld, err := loadProgram(r.S.Repo, []string{"./" + rel}, goEnv())
 	if err != nil {
 		r.inconsistent("loading " + rel + " failed: " + err.Error())
@@ -708,13 +739,13 @@ func (r *Runner) modeC(name string, filter string, bounds Bounds) {
 	if r.Spec.Timeout != nil {
 		solverTimeout = r.Spec.Timeout(r.Tier)
 	}
-	opts := RunOpts{Bounds: bounds, Workers: r.Workers, CrossCheck: r.Tier == "thorough", Filter: regexp.MustCompile(filter), Conc: true, Filter2: r.Filter}
+	opts := RunOpts{Bounds: bounds, Workers: r.Workers, CrossCheck: r.Tier == "thorough", Filter: regexp.MustCompile(filter), Conc: conc, Filter2: r.Filter, RunInit: true}
 	res := runHarnesses(ld, opts)
 	r.Programs += len(res)
 	r.Results = append(r.Results, res...)
 	r.Extra["bounds"] = bounds
 	r.classify(res)
-	r.stage("mode C harnesses decided")
+	r.stage("static fixture harnesses decided")
 	if verbose {
 		for _, hr := range res {
 			fmt.Fprintf(os.Stderr, "  %-34s %-12s solve=%dms exec=%dms obls=%d terms=%d %s\n", hr.Name, hr.Status, hr.SolveMs, hr.ExecMs, len(hr.Obls), hr.Terms, trunc(hr.Detail, 600))
